@@ -537,7 +537,42 @@ def c03(tier):
                       t0, timeout=10, extra_cov={"seeds": len(seeds), "mutants_per_seed": per, "level_hint": "sampling of the input space, see DESIGN.md section 8"})
 
 
-REGISTRY = {"C01": c01, "C07": c07, "C15": c15, "C10": c10, "C13": c13, "C03": c03, "C11": c11, "C19": c19, "C14": c14, "C16": c16, "C04": c04, "C05": c05, "C06": c06, "C08": c08, "C09": c09}
+def c18(tier):
+    t0 = time.time()
+    exe = vlib.build()
+    rng = random.Random(vlib.SEED)
+    S = scen.Script()
+    peakf = [0x10006, 0x10007, 0x130006, 0x20006, 0x20007, 0x180006, 0x180007, 0x220006]
+    ints = [0x10002, 0x10003, 0x10004, 0x10005, 0x20001, 0x20003, 0x180004, 0x30002, 0xb0003, 0x40004, 0x70002, 0xe0004]
+    other = [0x30006, 0x40007, 0xb0006, 0xc0006, 0xd0007, 0xa0006]          # float encodings without a PEAK chunk: CALC only
+    layouts = ["first", "last", "boundary", "ties", "zero"]
+    chans = (1, 2) if tier == "quick" else (1, 2, 5)
+    ok = set(formats.writable(exe, chans=chans, rate=RATE))
+    for fmt in peakf + ints + other:
+        for ch in chans:
+            if (fmt, ch) not in ok:
+                continue
+            for lay in layouts:
+                for N in ([37] if tier == "quick" else [5, 37, 300]):
+                    gen_env.c18_scenario(S, fmt, ch, RATE, rng, N, lay, 4 if tier == "quick" else 7)
+            if scen.is_granular(fmt):
+                gen_env.c18_scenario(S, fmt, ch, RATE, rng, 37, "ties", 3, rdwr=True)
+    # every other seekable encoding: CALC must leave position and normalisation alone (values not predicted)
+    for fmt, ch in formats.writable(exe, chans=(1,), rate=RATE):
+        if fmt in peakf + ints + other or scen.major(fmt) == scen.SD2:
+            continue
+        T = gen_core.type_for(fmt)
+        S.scn(fmt="0x%x" % fmt, ch=ch, T=T, kind="c18pos")
+        S.add("file 1 new", "open 0 vio w 1 %d %d %d" % (fmt, ch, RATE), "write 0 %s f 200 gen noise 3 0" % T, "close 0",
+              "open 1 vio r 1 %d %d %d" % (fmt if scen.major(fmt) == scen.RAW else 0, ch, RATE), "read 1 %s f 7" % T,
+              "calc 1 CALC_SIGNAL_MAX", "calc 1 CALC_NORM_MAX_ALL_CHANNELS", "seek 1 0 1", "read 1 %s f 3" % T, "close 1")
+    mcs = [gen_core.mc_rw("R", 2, tag=tier[0])]
+    return core_check("C18", tier, mcs, S.lines, "DESIGN.md section 6 C18",
+                      "float/double files in PEAK containers (WAV, WAVEX, AIFF, CAF, RF64) x channels x layouts of the maximum {first frame, last frame, both sides of a write-call boundary, ties, all zero} x write partitions, samples on the k/1024 grid logged as exact dyadics: stored PEAK values and positions (hook), SFC_GET_SIGNAL_MAX / GET_MAX_ALL_CHANNELS after re-open; SFC_CALC_* (plain, per channel, normalised) on float and integer PCM files at read positions 0, N/2, N and on RDWR handles: value = true maximum computed by TLC (CalcValsOK), position and normalisation setting unchanged; position clause on every other seekable encoding",
+                      t0)
+
+
+REGISTRY = {"C01": c01, "C07": c07, "C15": c15, "C10": c10, "C13": c13, "C03": c03, "C18": c18, "C11": c11, "C19": c19, "C14": c14, "C16": c16, "C04": c04, "C05": c05, "C06": c06, "C08": c08, "C09": c09}
 
 
 def replay(prop, path):
